@@ -132,3 +132,17 @@ def require_resolved(ctx, region):
         for st in ctx.cg.sites(f):
             if st.unresolved:
                 raise AnalysisError("unmodelled callee at %s: %s" % (st.loc(), unparse(st.node)[:80]))
+
+
+def core_of(ctx, api_name, marker):
+    """the function that implements an API entry: the API function itself, or (through thin wrappers) the function in
+    its region that directly calls `marker` (e.g. smiles_to_mol for the encoder, mol_to_smiles for the decoder)"""
+    f = ctx.api(api_name)
+    direct = {g.name for s in ctx.cg.sites(f) for g in s.callees}
+    if marker in direct:
+        return f
+    for q in ctx.cg.region(f):
+        g = ctx.db.funcs[q]
+        if any(h.name == marker for s in ctx.cg.sites(g) for h in s.callees):
+            return g
+    return f
